@@ -10,9 +10,11 @@
    and a sixth `life` value "gone" (garbage collected).  The base module's Next is re-enumerated here (NextX) because every
    step is post-processed (Post: garbage collection of unreferenced, unheld objects; write-lock tracking; staleness). *)
 EXTENDS OrmSession
-CONSTANTS Protos        \* pickle protocols
+CONSTANTS Protos,       \* pickle protocols
+          SrcKeys       \* primary keys of the merge sources
 NullV == -3             \* SQL NULL in a row / None in an attribute
 Gone == "gone"
+VX(s) == [V(s) EXCEPT !.wr = FALSE]
 InitStX == InitSt @@ [ref |-> [o \in Objs |-> TRUE], wr |-> FALSE, stale |-> {}, lost |-> FALSE]
 \* ------------------------------------------------------------------ spare names
 \* A model object that is transient and unknown to every transaction snapshot is only a placeholder: an instance the ORM
@@ -25,7 +27,7 @@ Blank(s, o) == [s EXCEPT !.key[o] = NoKey, !.pk[o] = 0, !.v[o] = NullV, !.exp[o]
 \* ------------------------------------------------------------------ C45: Session.merge(src, load=...)
 \* src = [kind, k, S, x]: kind "T" transient T(id=k[, v=x]); "D" clean detached copy with identity key k and the attribute
 \* subset S loaded (id = k, v = x); "Dm" detached copy whose v was set after detaching (state.modified)
-Srcs == {r \in [kind : {"T", "D", "Dm"}, k : Keys, S : SUBSET BothAttrs, x : Vals] :
+Srcs == {r \in [kind : {"T", "D", "Dm"}, k : SrcKeys, S : SUBSET BothAttrs, x : Vals] :
             /\ ("v" \notin r.S => r.x = 0)
             /\ (r.kind = "T" => "id" \in r.S)
             /\ (r.kind = "Dm" => "v" \in r.S)}
@@ -66,7 +68,7 @@ DoMerge(s, src, load) ==
        IF t0 # NoObj THEN R(CopyRaw(s, t0, src), "obj:" \o t0)
        ELSE IF src.kind = "Dm" THEN R(s, "InvalidRequestError")
        ELSE LET sp == SpareOf(s) IN
-            IF sp = NoObj THEN R(s, "nospare")
+            IF sp = NoObj \/ s.work[k] = Absent THEN R(s, "nospare")      \* load=False is for copies of rows that exist (documented)
             ELSE LET s1 == Ev([Blank(AutoBegin(s), sp) EXCEPT !.life[sp] = "persistent", !.key[sp] = k, !.imap[k] = sp, !.pk[sp] = k, !.v[sp] = 0],
                               "detached_to_persistent", sp)
                  IN R(CopyRaw(s1, sp, src), "new:" \o sp)
@@ -142,7 +144,8 @@ Post(s0, a, s1) ==
   LET c == Collect(s1) IN
   [c EXCEPT !.wr = IF c.tx = <<>> THEN FALSE ELSE s0.wr \/ (a \notin NonFlushers /\ ~Clean(s0)),
             !.stale = {o \in @ : InMapS(c, o) /\ "v" \notin c.exp[o]}]
-StepX(name, arg, res) == \E r \in {res} : \E s1 \in {Post(st, name, r.st)} :
+Refreshed(name, arg, ret) == IF name \in {"Refresh", "FRefresh"} /\ ret \in {"ok", "ok/ok"} THEN {arg[1]} ELSE {}
+StepX(name, arg, res) == \E r \in {res} : \E s1 \in {Post(st, name, [r.st EXCEPT !.stale = @ \ Refreshed(name, arg, r.ret)])} :
                            st' = s1 /\ last' = [a |-> name, arg |-> arg, ret |-> r.ret, ev |-> r.st.ev, sql |-> r.st.sql]
 InitX == st = InitStX /\ last = [a |-> "init", arg |-> <<>>, ret |-> "ok", ev |-> {}, sql |-> 0]
 InitEmitX == InitX /\ PrintT(ToJson([init |-> V(st)]))
@@ -168,7 +171,8 @@ NextX == ~st.taint /\
        \/ (On("Pickle") /\ \E p \in Protos : \E r \in {DoPickle(Clear(st), o)} : r.ret # "nospare" /\ StepX("Pickle", <<o, p>>, r))
   \/ StepX("Flush", <<>>, DoFlush(Clear(st)))
   \/ StepX("Commit", <<>>, DoCommit(Clear(st))) \/ StepX("Rollback", <<>>, DoRollback(Clear(st)))
-  \/ (On("Get") /\ \E k \in Keys : StepX("Get", <<k>>, DoGet(Clear(st), k)))
+  \* (an unreferenced object that the autoflush inside get() makes clean is collected before the SELECT: not generated)
+  \/ (On("Get") /\ (Clean(st) \/ \A o \in Objs : st.ref[o] \/ st.life[o] = Gone) /\ \E k \in Keys : StepX("Get", <<k>>, DoGet(Clear(st), k)))
   \/ (On("FGet") /\ ~st.needrb /\ \E k \in Keys : StepX("FGet", <<k>>, FThen(Clear(st), LAMBDA s : DoGet(s, k))))
   \/ (On("Expire") /\ StepX("ExpireAll", <<>>, DoExpireAll(Clear(st))))
   \/ (On("Close") /\ StepX("Close", <<>>, DoClose(Clear(st))))
@@ -183,7 +187,6 @@ NextX == ~st.taint /\
          \/ (st.committed[k] # Absent /\ StepX("ExtDel", <<k>>, R(ExtWrite(Clear(st), k, Absent), "ok"))))
 SpecX == InitX /\ [][NextX]_vars
 \* ================================================================== properties
-VX(s) == [V(s) EXCEPT !.wr = FALSE]
 RetObj(r) == IF \E o \in Objs : r \in {"obj:" \o o, "new:" \o o} THEN CHOOSE o \in Objs : r \in {"obj:" \o o, "new:" \o o} ELSE NoObj
 IsMerge == last'.a = "Merge" /\ RetObj(last'.ret) # NoObj
 \* ---------- C45
@@ -230,12 +233,12 @@ IsVal(r) == \E x \in Vals \cup {NullV} : r = Val(x)
 ReadReflectsDb == [][ (last'.a = "Read" /\ IsVal(last'.ret)) =>
     LET o == last'.arg[1] IN
     IF "v" \in st.exp[o] THEN st'.work[st'.key[o]] # Absent /\ last'.ret = Val(st'.work[st'.key[o]])
-    ELSE last'.ret = Val(st.v[o]) /\ last'.sql = 0 /\ V(st') = V(st) ]_vars
+    ELSE last'.ret = Val(st.v[o]) /\ last'.sql = 0 /\ VX(st') = VX(st) ]_vars
 \* after expire / expire_all / refresh / commit (expire_on_commit) / populate_existing the affected objects are not stale any
 \* more and the next read gives the row of the transaction's view
 Affected(o) == \/ last'.a \in {"Expire", "ExpireV", "Refresh"} /\ last'.arg[1] = o
                \/ last'.a = "ExpireAll" \/ (last'.a = "Commit" /\ Eoc)
-               \/ (last'.a = "QueryAll" /\ last'.arg[1] /\ st'.work[st'.key[o]] # Absent)
+               \/ (last'.a = "QueryAll" /\ last'.arg[1] /\ InMapS(st', o) /\ st'.work[st'.key[o]] # Absent)
 ExpireMakesFresh == [][ last'.ret \in {"ok"} \cup {QNames(st', K) : K \in SUBSET Keys} =>
     \A o \in Objs : (Affected(o) /\ InMapS(st', o) /\ st'.life[o] = "persistent" /\ o \notin st'.sdel /\ ~VChanged(st', o)) =>
         /\ o \notin st'.stale
@@ -256,7 +259,9 @@ AutoflushEquiv == [][
     /\ ((last'.a = "Get" /\ ~st.needrb /\ (st.imap[last'.arg[1]] = NoObj \/ Expired(st, st.imap[last'.arg[1]]))) =>
             \E f \in {FThen(Clear(st), LAMBDA s : DoGet(s, last'.arg[1]))} :
             IF f.ret \in {"IntegrityError/-", "StaleDataError/-", "ObjectDeletedError/-"} THEN f.ret = last'.ret \o "/-"
-            ELSE f.ret = "ok/" \o last'.ret /\ V(Post(st, "Get", f.st)) = V(st') /\ f.st.sql = last'.sql /\ f.st.ev = last'.ev)
+            \* (the statement count may differ: after the explicit flush a just-flushed pending object answers get() from the identity map)
+            ELSE f.ret = "ok/" \o last'.ret /\ V(Post(st, "Get", f.st)) = V(st') /\ f.st.sql <= last'.sql
+                 /\ {<<e[1], e[2]>> : e \in f.st.ev} = {<<e[1], e[2]>> : e \in last'.ev})     \* (event multiplicity: deviation e of OrmSession.tla)
     /\ ((last'.a = "Read" /\ ~st.needrb /\ "v" \in st.exp[last'.arg[1]]) =>
             \E f \in {FThen(Clear(st), LAMBDA s : IF ReadOkS(s, last'.arg[1]) THEN DoRead(s, last'.arg[1]) ELSE R(s, "-"))} :
             IF f.ret \in {"IntegrityError/-", "StaleDataError/-", "ObjectDeletedError/-"} THEN f.ret = last'.ret \o "/-"
